@@ -240,7 +240,9 @@ impl Polynomial<Cmplx> {
             roots[2] = roots[0];
         } else {
             let sqrt = (- 27. * a * a * dis).sqrt();
-            let base = if d1 < Cmplx::zero() { d1 - sqrt } else { d1 + sqrt } / 2.;
+            // take the sign that cannot cancel: |d1 + s*sqrt|^2 = |d1|^2 + |sqrt|^2 + 2 s Re( conj(d1) sqrt )
+            let sgn: f64 = if ( d1.conj() * sqrt ).real >= 0.0 { 1.0 } else { -1.0 };
+            let base = ( d1 + sqrt * sgn ) / 2.;
             let k = base.pow( &Cmplx::new( 1. / 3.0, 0.0 ) );
             roots[0] = -(b + k + d0 / k) / ( 3. * a );
             let u = Cmplx::new( -0.5, (3.0_f64).sqrt() / 2.0 );
